@@ -388,16 +388,27 @@ def _chain(r, a, f):
     """r.tan = f * a.tan"""
     if a.tan is not None: r.tan = {k: mul(v, f, False) for k, v in a.tan.items()}
     return r
+def _const_arg(a):
+    """rational value of an argument that is constant after simplification (e.g. x - x), else None"""
+    if not a.n: return Fraction(0)
+    if set(a.n) - {E}: return None
+    se = z3.simplify(a.expr())
+    if z3.is_rational_value(se): return Fraction(se.numerator_as_long(), se.denominator_as_long())
+    return None
 def exp(a):
     a = lift(a)
-    if not a.n: return RV.const(1)
+    if _const_arg(a) == 0: return RV.const(1)
     nm, v = _trans('exp', [a]); r = RV({E: v})
     return _chain(r, a, r.notan())
 def log(a):
-    a = lift(a); nm, v = _trans('log', [a]); r = RV({E: v})
+    a = lift(a)
+    if _const_arg(a) == 1: return RV({})
+    nm, v = _trans('log', [a]); r = RV({E: v})
     return _chain(r, a, inv(a.notan(), False)) if a.tan is not None else r
 def acos(a):
-    a = lift(a); nm, v = _trans('acos', [a]); r = RV({E: v})
+    a = lift(a)
+    if _const_arg(a) == 1: return RV({})
+    nm, v = _trans('acos', [a]); r = RV({E: v})
     if a.tan is not None:
         an = a.notan()
         s_ = sqrt(sub(RV.const(1), mul(an, an, False), False))
@@ -412,7 +423,7 @@ def asin(a):
     return r
 def sin(a):
     a = lift(a)
-    if not a.n: return RV({})
+    if _const_arg(a) == 0: return RV({})
     # sin(acos u) = sqrt(1-u^2); sin(atan2(s,c)) = s/sqrt(s^2+c^2)
     t = _as_trans(a)
     if t is not None:
@@ -424,7 +435,7 @@ def sin(a):
     return r
 def cos(a):
     a = lift(a)
-    if not a.n: return RV.const(1)
+    if _const_arg(a) == 0: return RV.const(1)
     t = _as_trans(a)
     if t is not None:
         if t[0] == 'acos': return _chain_cos_of(a, t[1][0])
